@@ -315,6 +315,23 @@ theorem addTrial_outOfSpaceOK (cfg : Cfg) (fuel : Nat) (h : Handle) (params : Na
     rw [this]
     rfl
 
+theorem deleteStudy_deleteStudyOK (cfg : Cfg) (fuel : Nat) (h : Handle) (db : DB) :
+    deleteStudyOK db (clientExec cfg fuel h .deleteStudy db).db h = true := by
+  unfold deleteStudyOK
+  cases hs : findStudy db h.owner h.sid with
+  | none => rfl
+  | some st =>
+    have : findStudy (clientExec cfg fuel h .deleteStudy db).db h.owner h.sid = none := by
+      show findStudy (step cfg db (.deleteStudy h.owner h.sid)).2 h.owner h.sid = none
+      simp only [step, hs]
+      unfold findStudy
+      rw [List.find?_eq_none]
+      intro x hx
+      have := (List.mem_filter.mp hx).2
+      simpa using this
+    rw [this]
+    rfl
+
 /-- **the documented effect of the single calls** (the predicate judged on real runs) -/
 theorem clientExec_effectsOK (cfg : Cfg) (hc : cfg.metadataAtomic = true) (fuel : Nat) (h : Handle) (c : Call) (db : DB) :
     effectsOK db (clientExec cfg fuel h c db).db h c (clientExec cfg fuel h c db).obs = true := by
@@ -331,6 +348,7 @@ theorem clientExec_effectsOK (cfg : Cfg) (hc : cfg.metadataAtomic = true) (fuel 
   | stop id => exact stop_stopOK cfg fuel h id db
   | setState s => exact setState_setStateOK cfg fuel h s db
   | deleteTrial id => exact delete_deleteOK cfg fuel h id db
+  | deleteStudy => exact deleteStudy_deleteStudyOK cfg fuel h db
   | updateMetadata target kvs =>
     cases target with
     | none => rfl
